@@ -54,8 +54,9 @@ class GrowingStream(io.RawIOBase):
     """bytes arrive through feed(); close_input() signals end of stream.
     `max_read` bounds how many bytes one read() returns (short reads)."""
 
-    def __init__(self, seekable=True, max_read=None):
+    def __init__(self, seekable=True, max_read=None, none_on_zero=False):
         io.RawIOBase.__init__(self)
+        self.none_on_zero = none_on_zero      # a hand-written adapter that answers None to every read while it has nothing
         self._data = bytearray()
         self._pos = 0
         self._eof = False
@@ -96,6 +97,9 @@ class GrowingStream(io.RawIOBase):
 
     def read(self, n=-1):
         if n == 0:                      # like every real raw stream: read(0) is b'', never "no data yet"
+            if self.none_on_zero and len(self._data) - self._pos <= 0 and not self._eof:
+                self.log.append(('read', 0, None))
+                return None
             self.log.append(('read', 0, b''))
             return b''
         avail = len(self._data) - self._pos
